@@ -4,27 +4,46 @@ C04 -- a formula is marked correct exactly when enough samples agree within tole
 CHOICE engine, full product: the variables are sampled from DiscreteSets, the explorer owns
 random.choice, and for every configuration EVERY combination of sampled values (x_i, d_i),
 i < samples, is executed.  The oracle counts the samples whose miss exceeds the tolerance.
+
+Families added by the review pass (oracle: mcv/refs/c04_oracle.py, plain Python arithmetic):
+array_norms (matrices, complex vectors, 3-vectors: Frobenius vs other norms), defaults_and_spellings
+(options not passed; every spelling of the answer), same_sample (sampled functions, numbered /
+instructor-only / dependent variables), long_runs (3..6 samples, every subset failing, recording
+sampling set), infinity_counting (sample-dependent infinities, NumericalGrader), answer_credit
+(several answers with different credits), array_rewrites; plus magnitudes 1e-12..1e20 and further
+spellings of the tolerance in the older families.
 """
 import math
 import itertools
 from ..core import Family, Result, viol, HarnessError
 from .. import chooser
+from ..fixtures import ScriptedSampler
+from ..refs import c04_oracle as O
 
-from mitxgraders import FormulaGrader, NumericalGrader, MatrixGrader, DiscreteSet
+from mitxgraders import FormulaGrader, NumericalGrader, MatrixGrader, DiscreteSet, DependentSampler
+from mitxgraders.comparers import equality_comparer, EqualityComparer
 
 PROPERTY = 'C04'
 RULE = ('per configuration (grader kind x student form x tolerance x samples x failable_evals x credit) the full '
         'product of sampled values is executed; a configuration is non-trivial when both verdicts (credit / no '
-        'credit) occur among its executions or when it pins the boundary (exact equality at tolerance 0)')
+        'credit) occur among its executions or when it pins the boundary (exact equality at tolerance 0); '
+        'long_runs enumerates every subset of failing samples through a recording sampling set instead')
 EXPLANATION = ('states = distinct (configuration, RNG schedule) executions; transitions = grader calls; '
                'the RNG is an explored environment, every schedule runs the real grader')
 ASSUMPTIONS = ['guard band: no sampled miss lies within 4% of the tolerance (asserted by the harness)',
+               'documented defaults: tolerance 0.01% (FormulaGrader, MatrixGrader) / 5% (NumericalGrader), samples 5, failable_evals 0',
+               'answer_credit: every configured answer is compared, in configured order, each on its own n samples '
+               '(another number of draws is a harness error, not a verdict)',
+               'same_sample: within one sample the order in which a_{1} and a_{2} are drawn is left open (only symmetric use)',
                'DiscreteSet draws are the only RNG use in these configurations (any other draw is a harness error)',
                'oracle: failures = #{i: |expected_i - student_i| > tol_i}, tol_i = t or p*|expected_i| (Frobenius)']
 
 XS_REAL = (2, -4, 10)
 XS_CPLX = (1 + 2j, -3j)
 XS_SMALL = (2, -4)
+# very small / very large magnitudes (relative forms only: the effective tolerance p*|x| is far below 1e-8 / far above 1)
+XS_TINY = (3e-9, -2e-12)
+XS_HUGE = (3e20, -5e15)
 
 
 def tol_value(tol):
@@ -79,7 +98,7 @@ class SampleCounting(Family):
     name = 'sample_counting'
     kind = 'CHOICE'
     timeout = 600.0
-    rule = ('kinds {real, complex} x student forms {x+d, x*(1+d), abs(x), [x+d,2x], [x+d,2x+d], scaled vector} x '
+    rule = ('kinds {real, complex, tiny (1e-9..1e-12), huge (1e15..1e20)} x student forms {x+d, x*(1+d), abs(x), [x+d,2x], [x+d,2x+d], scaled vector} x '
             'tolerances x samples n x failable_evals 0..n+1 x answer credit {1, 0.5}; ALL |X|^n*|D|^n sampled value '
             'combinations per configuration; non-trivial = both verdicts occur or exact-equality boundary pinned')
 
@@ -95,12 +114,22 @@ class SampleCounting(Family):
                         for k in range(0, n + 2):
                             for c in (1, 0.5):
                                 yield (kind, form, tol, n, k, c)
+        # magnitudes: sampled values of size 1e-9..1e-12 and 1e15..1e20 with the relative student forms
+        for kind in ('tiny', 'huge'):
+            for tol in tols:
+                if not (isinstance(tol, str) or tol == 0):
+                    continue
+                if tier == 'quick' and kind == 'huge' and tol not in ('0%', '10%'):
+                    continue
+                for form in ('scale', 'mscale'):
+                    for (n, k) in ((1, 0), (2, 1)) + (((2, 0), (3, 1)) if tier == 'thorough' else ()):
+                        yield (kind, form, tol, n, k, 1)
 
     def check(self, case):
         kind, form, tol, n, k, c = case
         gk, answer, student, missf, normf = FORMS[form]
-        small = n >= 3
-        X = (XS_CPLX if kind == 'complex' else (XS_SMALL if small else XS_REAL))
+        small = n >= 3 or kind in ('tiny', 'huge')
+        X = {'complex': XS_CPLX, 'tiny': XS_TINY, 'huge': XS_HUGE}.get(kind, XS_SMALL if small else XS_REAL)
         D = dset(kind, form, tol, small)
         cls = FormulaGrader if gk == 'F' else MatrixGrader
         grader = cls(answers={'expect': answer, 'grade_decimal': c}, variables=['x', 'd'],
@@ -297,20 +326,29 @@ class ZeroExpected(Family):
         return Result('both' if len(verdicts) == 2 else 'one', len(verdicts) == 2, None, execs)
 
 
-NUM_ANSWERS = [('10', 10), ('-4', -4), ('0.5', 0.5), ('2+3*i', 2 + 3j)]
+NUM_ANSWERS = [('10', 10), ('-4', -4), ('0.5', 0.5), ('2+3*i', 2 + 3j),
+               # magnitudes: the last one only with relative tolerances (an absolute offset would be absorbed by rounding)
+               ('3e-9', 3e-9), ('-2e20', -2e20)]
+NUM_REL_ONLY = (5,)
 
 
 class Numerical(Family):
     name = 'numerical_single_sample'
-    rule = ('NumericalGrader (one sample, no failure tolerated): answers {10, -4, 0.5, 2+3i} x student = answer + delta '
+    rule = ('NumericalGrader (one sample, no failure tolerated): answers {10, -4, 0.5, 2+3i, 3e-9, -2e20 (relative only)} x student = answer + delta '
             'with delta from the tolerance-scaled offsets (incl. complex offsets separating modulus from component-wise '
             'comparison) x tolerances x credit {1, 0.5}')
 
     def cases(self, tier):
-        tols = [0, 0.1, '0%', '10%', 1, '1%', '100%', '5%', '0.005%', '0.0125%', '0.002%', 1e-7, ' 2.5 % ']
+        tols = [0, 0.1, '0%', '10%', 1, '1%', '100%', '5%', '0.005%', '0.0125%', '0.002%', 1e-7, ' 2.5 % ',
+                # other spellings / ranges of the option: above 100%, exponent, no leading digit, explicit sign, int > 1, float zero
+                '250%', '1e-2%', '.5%', '+5%', 2, 0.0, '0.0%']
         for a in range(len(NUM_ANSWERS)):
             for tol in tols:
-                for c in (1, 0.5):
+                if a in NUM_REL_ONLY and not isinstance(tol, str):
+                    continue
+                if tier == 'quick' and tols.index(tol) >= 13 and a in (1, 2):
+                    continue
+                for c in ((1, 0.5) if (a < 4 and tols.index(tol) < 13) else (1,)):
                     for j in range(9):
                         yield (a, tol, c, j)
 
@@ -355,17 +393,18 @@ INF_VALUE = {'infty': 'inf', '-infty': '-inf', '1e308': 'fin', 'x': 'fin', '-x':
 class Infinity(Family):
     name = 'infinity'
     kind = 'CHOICE'
-    rule = ('allow_inf=True: every (answer, student) pair from %s x tolerances {0.1, "100%%", "10%%", 0}: equal infinities '
+    rule = ('allow_inf=True: every (answer, student) pair from %s x tolerances {0.1, "100%%", "10%%", 0, infinite}: equal infinities '
             'match, an infinity never matches anything else' % INF_EXPRS)
 
     def cases(self, tier):
         for a in range(len(INF_EXPRS)):
             for s in range(len(INF_EXPRS)):
-                for tol in (0.1, '100%', '10%', 0):
+                for tol in (0.1, '100%', '10%', 0, 'inf'):
                     yield (a, s, tol)
 
     def check(self, case):
         a, s, tol = case
+        tol = O.tol_config(tol)     # 'inf' = an infinite absolute tolerance: still only the same infinity matches
         ans, stu = INF_EXPRS[a], INF_EXPRS[s]
         va, vs = INF_VALUE[ans], INF_VALUE[stu]
         if va == 'fin' and vs == 'fin':
@@ -393,5 +432,601 @@ class Infinity(Family):
         return Result('match' if expect_match else 'nomatch', True, None, n)
 
 
+
+# ----------------------------------------------------------------------------------------------------------------------
+# generic engine for the families below: every RNG schedule of a grader whose variables / functions are drawn from
+# pairwise different finite menus; the oracle (mcv/refs/c04_oracle.py) decides each sample from the values handed out.
+
+def choice_draws(ch, menu):
+    """the values handed out at the choice points whose menu is `menu`"""
+    out = []
+    for v in ch.values:
+        if isinstance(v, tuple) and len(v) == 3 and v[0] == 'choice':
+            seq = v[1]
+            if len(seq) == len(menu) and all((a is b) if callable(a) else (not callable(b) and a == b)
+                                             for a, b in zip(seq, menu)):
+                out.append(seq[v[2]])
+    return out
+
+
+def explore_counting(grader, student, menus, n, k, tol, answers, stu_fn, per=None, sig='counting', label=''):
+    """
+    answers: [(exp_fn(env), credit)] in configured order (every answer is compared on n fresh samples);
+    menus: {name: menu}; per: {name: draws per sample} (default 1);  env[name] = drawn value (or list of values).
+    Returns (executions, set of expected grades, violation or None).
+    """
+    per = per or {}
+    names = list(menus)
+    for a, b in itertools.combinations(names, 2):
+        if choice_draws_same(menus[a], menus[b]):
+            raise HarnessError('menus of %s and %s coincide' % (a, b))
+
+    def body(ch):
+        try:
+            return ('ok', grader(None, student))
+        except Exception as e:
+            return ('err', type(e).__name__, str(e))
+
+    execs = 0
+    grades = set()
+    for ch, out in chooser.explore(body, bound=None):
+        execs += 1
+        draws = {nm: choice_draws(ch, menus[nm]) for nm in names}
+        for nm in names:
+            need = per.get(nm, 1) * n * len(answers)
+            if len(draws[nm]) != need:
+                raise HarnessError('%s: expected %d draws of %s, saw %d (points %r)' % (label, need, nm, len(draws[nm]), ch.points))
+        grade = 0
+        fails = []
+        envs = []
+        for ai, (exp_fn, credit) in enumerate(answers):
+            failures = 0
+            for i in range(n):
+                env = {}
+                for nm in names:
+                    q = per.get(nm, 1)
+                    base = (ai * n + i) * q
+                    env[nm] = draws[nm][base] if q == 1 else draws[nm][base:base + q]
+                envs.append(env)
+                if not O.agree(exp_fn(env), stu_fn(env), tol)[0]:
+                    failures += 1
+            fails.append(failures)
+            if O.verdict(failures, n, k):
+                grade = max(grade, credit)
+        grades.add(grade)
+        shown = [dict((nm, getattr(v, '__name__', v)) for nm, v in e.items()) for e in envs]
+        if out[0] != 'ok':
+            return execs, grades, viol('%s:raised' % sig, '%s student %r with samples %r raised %s: %s'
+                                       % (label, student, shown, out[1], out[2]), grade, out[1:])
+        res = out[1]
+        if abs(res['grade_decimal'] - grade) > 1e-12 or res['ok'] != O.ok_of(grade):
+            return execs, grades, viol('%s:%s' % (sig, 'credit-for-miss' if res['grade_decimal'] > grade else 'no-credit-for-match'),
+                                       '%s samples=%d failable_evals=%d student=%r; sampled %r: sample(s) out of tolerance per answer %r '
+                                       '-> expected grade %r, got %r' % (label, n, k, student, shown, fails, grade, res),
+                                       {'grade_decimal': grade, 'ok': O.ok_of(grade)}, res)
+    return execs, grades, None
+
+
+def choice_draws_same(m1, m2):
+    return len(m1) == len(m2) and all((a is b) if callable(a) else (not callable(b) and a == b) for a, b in zip(m1, m2))
+
+
+def counted(execs, grades, v, nontrivial=None):
+    if v is not None:
+        return Result('raised' if v['sig'].endswith(':raised') else 'wrong', True, v, execs) if isinstance(v, dict) else \
+            Result('wrong', True, v, execs)
+    return Result('both' if len(grades) >= 2 else ('all-credit' if grades != {0} else 'all-wrong'),
+                  len(grades) >= 2 if nontrivial is None else nontrivial, None, execs)
+
+
+# ---- arrays beyond 2-vectors: matrices, complex vectors, 3-vectors, a scalar answer inside MatrixGrader
+S2, S3, S6 = math.sqrt(2), math.sqrt(3), math.sqrt(6)
+ARRAY_FORMS = {
+    # name: (answer, student, exp(x), stu(x, d))
+    'mat_diag': ('[[x, 2*x], [0, -x]]', '[[x+d, 2*x], [0, -x+d]]',
+                 lambda x: [[x, 2 * x], [0, -x]], lambda x, d: [[x + d, 2 * x], [0, -x + d]]),
+    'mat_anti': ('[[x, 2*x], [0, -x]]', '[[x, 2*x+d], [d, -x]]',
+                 lambda x: [[x, 2 * x], [0, -x]], lambda x, d: [[x, 2 * x + d], [d, -x]]),
+    'mat_one': ('[[x, 2*x], [0, -x]]', '[[x, 2*x+d], [0, -x]]',
+                lambda x: [[x, 2 * x], [0, -x]], lambda x, d: [[x, 2 * x + d], [0, -x]]),
+    'mat_all': ('[[x, 2*x], [0, -x]]', '[[x+d, 2*x+d], [d, -x+d]]',
+                lambda x: [[x, 2 * x], [0, -x]], lambda x, d: [[x + d, 2 * x + d], [d, -x + d]]),
+    'mat_scale': ('[[x, 2*x], [0, -x]]', '(1+d)*[[x, 2*x], [0, -x]]',
+                  lambda x: [[x, 2 * x], [0, -x]], lambda x, d: [[(1 + d) * x, (1 + d) * (2 * x)], [0, (1 + d) * (-x)]]),
+    'cvec_imag': ('[x, i*x]', '[x+i*d, i*x+d]',
+                  lambda x: [x, 1j * x], lambda x, d: [x + 1j * d, 1j * x + d]),
+    'cvec_scale': ('[x, i*x]', '(1+i*d)*[x, i*x]',
+                   lambda x: [x, 1j * x], lambda x, d: [(1 + 1j * d) * x, (1 + 1j * d) * (1j * x)]),
+    'vec3': ('[x, 2*x, -2*x]', '[x+d, 2*x+d, -2*x+d]',
+             lambda x: [x, 2 * x, -2 * x], lambda x, d: [x + d, 2 * x + d, -2 * x + d]),
+    'vec3_scale': ('[x, 2*x, -2*x]', '[x, 2*x, -2*x]*(1+d)',
+                   lambda x: [x, 2 * x, -2 * x], lambda x, d: [x * (1 + d), 2 * x * (1 + d), -2 * x * (1 + d)]),
+    'mscalar': ('x', 'x+d', lambda x: x, lambda x, d: x + d),
+    'mabs': ('[x, 2*x]', '[abs(x), 2*x]', lambda x: [x, 2 * x], lambda x, d: [abs(x), 2 * x]),
+    'mat_abs': ('[[x, 2*x], [0, -x]]', '[[abs(x), 2*x], [0, -x]]',
+                lambda x: [[x, 2 * x], [0, -x]], lambda x, d: [[abs(x), 2 * x], [0, -x]]),
+}
+ARRAY_X = (2, -4)
+ARRAY_THOROUGH_ONLY = ('mat_anti', 'mat_one', 'mat_scale', 'cvec_scale', 'vec3_scale', 'mabs')
+
+
+def array_dset(form, tol):
+    """
+    offsets scaled so that, at x=2, the Frobenius miss is c * tolerance for c in CS: c=1.25 separates the Frobenius norm
+    from the spectral / max-abs norms (miss/sqrt(2) or less), c=0.8 from the nuclear / 1-norms (miss*sqrt(2) or more)
+    """
+    _, _, expf, stuf = ARRAY_FORMS[form]
+    mode, t = O.tol_value(tol)
+    if form in ('mabs', 'mat_abs'):
+        return (0, 1)
+    if t == 0:
+        return (0, 1e-6, 1)
+    unit = O.agree(expf(2), stuf(2, 1.0), 0, guard=False)[1]        # miss per unit d at x=2
+    t2 = t if mode == 'abs' else t * O.frob(expf(2))
+    cs = (0, 0.45, 0.8, 1.25, 3) if mode == 'abs' else (0, 0.8, 1.25, 2.2, 10)
+    return tuple(c * t2 / unit for c in cs)
+
+
+class ArrayNorms(Family):
+    name = 'array_norms'
+    kind = 'CHOICE'
+    timeout = 300.0
+    rule = ('MatrixGrader(max_array_dim=2): 2x2 matrix answers with the error on the diagonal / anti-diagonal / one entry / all '
+            'entries / a common factor, complex vectors with imaginary errors, 3-vectors, a scalar answer, abs() branch variants; '
+            'offsets at 0.45/0.8/1.25/3 x the tolerance in FROBENIUS measure (so that the spectral, max-abs, nuclear and 1-norms '
+            'all decide differently somewhere) x tolerances x samples 1-2 x failable_evals; all sampled combinations of x in '
+            '%r and d; non-trivial = both verdicts occur' % (ARRAY_X,))
+
+    def cases(self, tier):
+        tols = [0.1, '10%', 0] + ([1, '100%', '0.005%', '0%'] if tier == 'thorough' else [])
+        nks = [(1, 0), (2, 0), (2, 1)] + ([(2, 2), (1, 1), (3, 1)] if tier == 'thorough' else [])
+        for form in ARRAY_FORMS:
+            if tier == 'quick' and form in ARRAY_THOROUGH_ONLY:
+                continue
+            for tol in tols:
+                for (n, k) in nks:
+                    yield (form, tol, n, k)
+
+    def check(self, case):
+        form, tol, n, k = case
+        answer, student, expf, stuf = ARRAY_FORMS[form]
+        D = array_dset(form, tol)
+        X = ARRAY_X
+        if n >= 3:
+            D = tuple(d for i, d in enumerate(D) if i in (0, 2, 3))
+        grader = MatrixGrader(answers=answer, variables=['x', 'd'], max_array_dim=2,
+                              sample_from={'x': DiscreteSet(X), 'd': DiscreteSet(D)},
+                              samples=n, failable_evals=k, tolerance=tol)
+        execs, grades, v = explore_counting(
+            grader, student, {'x': X, 'd': D}, n, k, tol,
+            [(lambda e: expf(e['x']), 1)], lambda e: stuf(e['x'], e['d']),
+            sig='array:%s' % form, label='MatrixGrader answer %r tolerance %r' % (answer, tol))
+        return counted(execs, grades, v)
+
+
+# ---- options left at their documented defaults; the answer given in every accepted spelling
+DEFAULT_TOL = {'F': '0.01%', 'M': '0.01%', 'N': '5%'}      # docs: FormulaGrader '0.01%' (MatrixGrader: as FormulaGrader), NumericalGrader '5%'
+DEFAULT_SAMPLES = 5
+DEFAULT_FAILABLE = 0
+OMIT = [(), ('tolerance',), ('samples',), ('failable_evals',), ('tolerance', 'samples', 'failable_evals')]
+SPECS = ['str', 'dict', 'tuple', 'cmp', 'fresh', 'dict-cmp-credit']
+
+
+def answer_spec(spec, text):
+    if spec == 'str':
+        return text, 1
+    if spec == 'dict':
+        return {'expect': text}, 1                       # grade_decimal left at its default
+    if spec == 'tuple':
+        return (text,), 1
+    if spec == 'cmp':
+        return {'expect': {'comparer_params': [text], 'comparer': equality_comparer}}, 1
+    if spec == 'fresh':
+        return {'expect': {'comparer_params': [text], 'comparer': EqualityComparer()}}, 1
+    if spec == 'dict-cmp-credit':
+        return {'expect': {'comparer_params': [text], 'comparer': equality_comparer}, 'grade_decimal': 0.5}, 0.5
+    raise HarnessError(spec)
+
+
+class Defaults(Family):
+    name = 'defaults_and_spellings'
+    kind = 'CHOICE'
+    timeout = 300.0
+    rule = ('FormulaGrader / MatrixGrader with tolerance, samples, failable_evals passed or LEFT OUT (documented defaults 0.01%, '
+            '5, 0) x the answer written as string / {expect} / tuple / explicit equality_comparer / a fresh EqualityComparer() / '
+            'with credit 0.5; student answer*(1+d), d on both sides of the effective tolerance; all sampled combinations; plus '
+            'NumericalGrader with its default 5% tolerance')
+
+    def cases(self, tier):
+        for cls in ('F', 'M'):
+            for o in range(len(OMIT)):
+                for spec in SPECS:
+                    if tier == 'quick' and cls == 'M' and spec not in ('str', 'cmp', 'dict-cmp-credit'):
+                        continue
+                    yield (cls, o, spec)
+        for spec in ('str', 'dict', 'cmp'):
+            for j in range(7):
+                yield ('N', spec, j)
+
+    def check(self, case):
+        if case[0] == 'N':
+            _, spec, j = case
+            student = ['10', '10.4', '9.6', '10.6', '9.4', '10+0.4*i', '10+0.6*i'][j]
+            value = [10, 10.4, 9.6, 10.6, 9.4, 10 + 0.4j, 10 + 0.6j][j]
+            ans, credit = answer_spec(spec, '10')
+            correct = O.agree(10, value, DEFAULT_TOL['N'])[0]
+            try:
+                res = NumericalGrader(answers=ans)(None, student)
+            except Exception as e:
+                return Result('raised', True, viol('defaults:raised', 'NumericalGrader(answers=%r) student %r raised %r' % (ans, student, e)))
+            exp = credit if correct else 0
+            if abs(res['grade_decimal'] - exp) > 1e-12:
+                return Result('wrong', True,
+                              viol('defaults:numerical:%s' % ('credit-for-miss' if res['grade_decimal'] > exp else 'no-credit-for-match'),
+                                   'NumericalGrader(answers=%r) with the default tolerance (5%%): student %r expected grade %r, got %r'
+                                   % (ans, student, exp, res), exp, res), 1)
+            return Result('correct' if correct else 'incorrect', True, None, 1)
+        cls, o, spec = case
+        omitted = OMIT[o]
+        tol = DEFAULT_TOL[cls] if 'tolerance' in omitted else '1%'
+        n = DEFAULT_SAMPLES if 'samples' in omitted else 2
+        k = DEFAULT_FAILABLE if 'failable_evals' in omitted else 1
+        p = O.tol_value(tol)[1]
+        X = (2,) if n > 2 else (2, -4)
+        D = (0.5 * p, 1.5 * p) if n > 2 else (0, 0.5 * p, -1.5 * p)
+        text = 'x' if cls == 'F' else '[x, 2*x]'
+        student = 'x*(1+d)' if cls == 'F' else '(1+d)*[x, 2*x]'
+        expf = (lambda e: e['x']) if cls == 'F' else (lambda e: [e['x'], 2 * e['x']])
+        stuf = (lambda e: e['x'] * (1 + e['d'])) if cls == 'F' else (lambda e: [(1 + e['d']) * e['x'], (1 + e['d']) * (2 * e['x'])])
+        ans, credit = answer_spec(spec, text)
+        opts = {'tolerance': tol, 'samples': n, 'failable_evals': k}
+        for name in omitted:
+            del opts[name]
+        grader = (FormulaGrader if cls == 'F' else MatrixGrader)(
+            answers=ans, variables=['x', 'd'], sample_from={'x': DiscreteSet(X), 'd': DiscreteSet(D)}, **opts)
+        execs, grades, v = explore_counting(
+            grader, student, {'x': X, 'd': D}, n, k, tol, [(expf, credit)], stuf,
+            sig='defaults:%s' % ('+'.join(omitted) or 'explicit'),
+            label='%s(answers=%r, %s) [not passed: %s]' % (type(grader).__name__, ans,
+                                                          ', '.join('%s=%r' % kv for kv in sorted(opts.items())), ', '.join(omitted) or '-'))
+        return counted(execs, grades, v)
+
+
+# ---- author and student expressions are evaluated on the SAME sample, whatever kind of symbol is sampled
+def f_ident(x):
+    return x
+
+
+def f_neg(x):
+    return -x
+
+
+def f_twice(x):
+    return 2 * x
+
+
+FUNCS = [f_ident, f_neg, f_twice]
+SAME_X = (2, -4)
+SAME_FORMS = {
+    # name: (config kind, answer, student, exp(env), stu(env), draws of the second menu per sample)
+    'func:same': ('func', 'f(x)', 'f(x)', lambda e: e['f'](e['x']), lambda e: e['f'](e['x']), 1),
+    'func:odd': ('func', 'f(x)', '-f(-x)', lambda e: e['f'](e['x']), lambda e: -e['f'](-e['x']), 1),
+    'func:x': ('func', 'f(x)', 'x', lambda e: e['f'](e['x']), lambda e: e['x'], 1),
+    'func:-x': ('func', 'f(x)', '-x', lambda e: e['f'](e['x']), lambda e: -e['x'], 1),
+    'func:ff': ('func', 'f(x)', 'f(f(x))', lambda e: e['f'](e['x']), lambda e: e['f'](e['f'](e['x'])), 1),
+    'func:2x+d': ('func', 'f(x)', '2*x', lambda e: e['f'](e['x']), lambda e: 2 * e['x'], 1),
+    'num:same': ('num', 'a_{1}*x', 'x*a_{1}', lambda e: e['a'] * e['x'], lambda e: e['x'] * e['a'], 1),
+    'num:pad': ('num', 'a_{1}*x', 'a_{1}*x+a_{2}-a_{2}', lambda e: e['a'][0] * e['x'], lambda e: e['a'][0] * e['x'], 2),
+    # a_{1} and a_{2} are drawn from the same menu; which draw is which is left open: the miss |a1-a2|*|x| is symmetric
+    'num:other': ('num', 'a_{1}*x', 'a_{2}*x', lambda e: e['a'][0] * e['x'], lambda e: e['a'][1] * e['x'], 2),
+    'ivar:3': ('ivar', 'c*x', '3*x', lambda e: e['c'] * e['x'], lambda e: 3 * e['x'], 1),
+    'ivar:5': ('ivar', 'c*x', 'x*5+0', lambda e: e['c'] * e['x'], lambda e: 5 * e['x'], 1),
+    'dep:same': ('dep', 'y*x', 'x*y', lambda e: (2 * e['x'] + 1) * e['x'], lambda e: e['x'] * (2 * e['x'] + 1), 1),
+    'dep:expanded': ('dep', 'y*x', '(2*x+1)*x', lambda e: (2 * e['x'] + 1) * e['x'], lambda e: (2 * e['x'] + 1) * e['x'], 1),
+    'dep:5x': ('dep', 'y*x', '5*x', lambda e: (2 * e['x'] + 1) * e['x'], lambda e: 5 * e['x'], 1),
+}
+SAME_A = (3, 5)
+SAME_C = (3, 5, 3.5)
+
+
+class SameSample(Family):
+    name = 'same_sample'
+    kind = 'CHOICE'
+    timeout = 300.0
+    rule = ('the answer and the student formula see the same sample of every kind of sampled symbol: a function drawn from a list '
+            'of three (f(x) vs f(x), -f(-x), x, -x, f(f(x)), 2*x agree exactly at the samples where the drawn function makes them '
+            'equal), numbered variables, an instructor-only variable, a DependentSampler; tolerances {0, 0.1, 1%%} x samples 1-2 '
+            '(3 in thorough) x failable_evals; all sampled combinations (x in %r)' % (SAME_X,))
+
+    def cases(self, tier):
+        nks = [(1, 0), (2, 0), (2, 1)] + ([(3, 0), (3, 1)] if tier == 'thorough' else [])
+        for form in SAME_FORMS:
+            for tol in (0, 0.1) + (('1%',) if tier == 'thorough' else ()):
+                for (n, k) in nks:
+                    yield (form, tol, n, k)
+
+    def check(self, case):
+        form, tol, n, k = case
+        kind, answer, student, expf, stuf, q = SAME_FORMS[form]
+        X = SAME_X
+        if kind == 'func':
+            grader = FormulaGrader(answers=answer, variables=['x'], sample_from={'x': DiscreteSet(X)},
+                                   user_functions={'f': list(FUNCS)}, samples=n, failable_evals=k, tolerance=tol)
+            menus, per = {'x': X, 'f': FUNCS}, None
+        elif kind == 'num':
+            grader = FormulaGrader(answers=answer, variables=['x'], numbered_vars=['a'],
+                                   sample_from={'x': DiscreteSet(X), 'a': DiscreteSet(SAME_A)},
+                                   samples=n, failable_evals=k, tolerance=tol)
+            menus, per = {'x': X, 'a': SAME_A}, {'a': q}
+        elif kind == 'ivar':
+            grader = FormulaGrader(answers=answer, variables=['x', 'c'], instructor_vars=['c'],
+                                   sample_from={'x': DiscreteSet(X), 'c': DiscreteSet(SAME_C)},
+                                   samples=n, failable_evals=k, tolerance=tol)
+            menus, per = {'x': X, 'c': SAME_C}, None
+        else:
+            grader = FormulaGrader(answers=answer, variables=['x', 'y'],
+                                   sample_from={'x': DiscreteSet(X), 'y': DependentSampler(depends=['x'], formula='2*x+1')},
+                                   samples=n, failable_evals=k, tolerance=tol)
+            menus, per = {'x': X}, None
+        execs, grades, v = explore_counting(grader, student, menus, n, k, tol, [(expf, 1)], stuf, per=per,
+                                            sig='same-sample:%s' % form,
+                                            label='FormulaGrader answer %r tolerance %r (%s)' % (answer, tol, kind))
+        always = form.split(':')[1] in ('same', 'odd', 'pad', 'expanded')
+        return counted(execs, grades, v, nontrivial=True if always else None)
+
+
+# ---- long runs: more samples than the full product can afford, every subset of failing samples, through an
+# ---- author-defined recording sampling set (a VariableSamplingSet subclass), a fresh grader per execution
+LONG_FORMS = {
+    'offset': ('F', 'x', 'x+d', 0.1, lambda x: x, lambda x, d: x + d),
+    'mscale': ('M', '[x, 2*x]', '(1+d)*[x, 2*x]', '10%', lambda x: [x, 2 * x], lambda x, d: [(1 + d) * x, (1 + d) * (2 * x)]),
+}
+
+
+class LongRuns(Family):
+    name = 'long_runs'
+    rule = ('samples n in 3..5 (6 in thorough) x failable_evals 0..n+1 x credit {1, 0.5} x debug {off, on}: EVERY subset of '
+            'the n samples as the set of failing samples (2^n scripts), values handed out and recorded by an author-defined '
+            'VariableSamplingSet subclass (x repeats, so equal (author, student) pairs recur); a new grader per script')
+
+    def cases(self, tier):
+        for form in LONG_FORMS:
+            for n in (3, 4, 5) + ((6,) if tier == 'thorough' else ()):
+                for k in range(0, n + 2):
+                    for c in (1, 0.5):
+                        for debug in (False, True):
+                            if debug and (c != 1 or k not in ((0, 1, n) if n == 3 else (1,))):
+                                continue
+                            if tier == 'quick' and n >= 4 and (c != 1 or form != 'offset' or (n == 5 and (debug or k == 3))):
+                                continue
+                            yield (form, n, k, c, debug)
+
+    def check(self, case):
+        form, n, k, c, debug = case
+        gk, answer, student, tol, expf, stuf = LONG_FORMS[form]
+        p = O.tol_value(tol)[1]
+        cls = FormulaGrader if gk == 'F' else MatrixGrader
+        verdicts = set()
+        for mask in range(2 ** n):
+            sx = ScriptedSampler(values=[2, 2, -4])
+            sd = ScriptedSampler(values=[(3 * p if (mask >> i) & 1 else (0.5 * p if i % 2 else 0)) for i in range(n)])
+            grader = cls(answers={'expect': answer, 'grade_decimal': c}, variables=['x', 'd'], sample_from={'x': sx, 'd': sd},
+                         samples=n, failable_evals=k, tolerance=tol, debug=debug)
+            try:
+                res = grader(None, student)
+            except Exception as e:
+                return Result('raised', True, viol('long:raised', '%r mask %s raised %r' % (case, bin(mask), e)), mask + 1)
+            if len(sx.drawn) != n or len(sd.drawn) != n:
+                raise HarnessError('expected %d draws, recorded %r / %r' % (n, sx.drawn, sd.drawn))
+            failures = sum(1 for x, d in zip(sx.drawn, sd.drawn) if not O.agree(expf(x), stuf(x, d), tol)[0])
+            if failures != bin(mask).count('1'):
+                raise HarnessError('script and oracle disagree about the failing samples')
+            correct = O.verdict(failures, n, k)
+            verdicts.add(correct)
+            exp = c if correct else 0
+            if abs(res['grade_decimal'] - exp) > 1e-12 or res['ok'] != O.ok_of(exp):
+                return Result('wrong', True,
+                              viol('long:%s:%s' % (form, 'credit-for-miss' if res['grade_decimal'] > exp else 'no-credit-for-match'),
+                                   '%s answer %r tolerance %r samples=%d failable_evals=%d credit=%r debug=%r student %r; recorded '
+                                   'samples x=%r d=%r: %d out of tolerance -> expected grade %r, got ok=%r grade=%r'
+                                   % (cls.__name__, answer, tol, n, k, c, debug, student, sx.drawn, sd.drawn, failures, exp,
+                                      res['ok'], res['grade_decimal']), exp, {'ok': res['ok'], 'grade_decimal': res['grade_decimal']}),
+                              mask + 1)
+        return Result('both' if len(verdicts) == 2 else ('all-correct' if True in verdicts else 'all-wrong'),
+                      len(verdicts) == 2, None, 2 ** n)
+
+
+# ---- infinities that depend on the sample, counted against failable_evals; NumericalGrader with allow_inf
+INFC_EXPRS = {
+    'infty*x': lambda x: O.INF * x, '-infty*x': lambda x: -O.INF * x, 'infty': lambda x: O.INF, '-infty': lambda x: -O.INF,
+    'x': lambda x: x, 'abs(x)': lambda x: abs(x), 'infty*abs(x)': lambda x: O.INF * abs(x), '3*x': lambda x: 3 * x,
+}
+INFC_ANSWERS = ['infty*x', '-infty*x', 'infty', 'x']
+INFC_STUDENTS = ['infty*x', '-infty*x', 'infty', '-infty', 'x', 'abs(x)', 'infty*abs(x)', '3*x']
+INFC_X = (3, -7)
+NUMINF = [('infty', O.INF), ('-infty', -O.INF), ('1e150', 1e150), ('5', 5), ('infty+1', O.INF), ('-(-infty)', O.INF), ('-1e150', -1e150)]
+
+
+class InfinityCounting(Family):
+    name = 'infinity_counting'
+    kind = 'CHOICE'
+    timeout = 120.0
+    rule = ('allow_inf=True, x drawn from %r so that infty*x is +infinity at some samples and -infinity at others: answers %s x '
+            'students %s x tolerances {0.1, 100%%, infinite} x samples 2 x failable_evals 0..2 (a sample agrees iff both values are '
+            'the same infinity, or both are finite and within tolerance); plus NumericalGrader(allow_inf=True) on every pair of %s'
+            % (INFC_X, INFC_ANSWERS, INFC_STUDENTS, [a for a, _ in NUMINF]))
+
+    def cases(self, tier):
+        for a in range(len(INFC_ANSWERS)):
+            for s in range(len(INFC_STUDENTS)):
+                for tol in (0.1, '100%', 'inf'):
+                    for (n, k) in ((2, 0), (2, 1), (2, 2), (1, 0)):
+                        if tol == 'inf' and tier == 'quick' and (n, k) != (2, 0):
+                            continue
+                        yield ('F', a, s, tol, n, k)
+        for a in range(len(NUMINF)):
+            for s in range(len(NUMINF)):
+                for tol in (0.1, '100%', 'inf', 0):
+                    if tier == 'quick' and (max(a, s) >= 5 or tol == 0):
+                        continue
+                    yield ('N', a, s, tol)
+
+    def check(self, case):
+        if case[0] == 'N':
+            _, a, s, tol = case
+            (at, av), (st, sv) = NUMINF[a], NUMINF[s]
+            if not (O.is_inf(av) or O.is_inf(sv)) and av != sv:
+                return Result('finite-pair', False, None, 0)
+            correct = O.agree(av, sv, tol)[0]
+            try:
+                res = NumericalGrader(answers=at, allow_inf=True, tolerance=O.tol_config(tol))(None, st)
+            except Exception as e:
+                return Result('raised', True, viol('infinity:numerical:raised', 'answer %r student %r raised %r' % (at, st, e)), 1)
+            if (res['grade_decimal'] == 1) != correct or res['ok'] != correct:
+                return Result('wrong', True,
+                              viol('infinity:numerical:%s' % ('mismatch-credited' if res['grade_decimal'] else 'same-value-refused'),
+                                   'NumericalGrader(allow_inf=True, tolerance=%r): answer %r student %r -> %r' % (tol, at, st, res),
+                                   correct, res), 1)
+            return Result('match' if correct else 'nomatch', True, None, 1)
+        _, a, s, tol, n, k = case
+        ans, stu = INFC_ANSWERS[a], INFC_STUDENTS[s]
+        ef, sf = INFC_EXPRS[ans], INFC_EXPRS[stu]
+        grader = FormulaGrader(answers=ans, variables=['x'], sample_from={'x': DiscreteSet(INFC_X)}, samples=n,
+                               failable_evals=k, allow_inf=True, tolerance=O.tol_config(tol))
+        execs, grades, v = explore_counting(grader, stu, {'x': INFC_X}, n, k, tol, [(lambda e: ef(e['x']), 1)],
+                                            lambda e: sf(e['x']), sig='infinity:counting',
+                                            label='FormulaGrader(allow_inf=True) answer %r tolerance %r' % (ans, tol))
+        return counted(execs, grades, v, nontrivial=True)
+
+
+# ---- several answers with different credits: the credit earned is that of the best answer whose count agrees
+CREDIT_SETS = [('two', 1, 0.5), ('two', 0.5, 1), ('two', 0.5, 0.25), ('two', 0, 1), ('two', 1, 0), ('expect-tuple', 1, None),
+               ('expect-tuple', 0.5, None)]
+
+
+class AnswerCredit(Family):
+    name = 'answer_credit'
+    kind = 'CHOICE'
+    timeout = 300.0
+    rule = ('two configured answers x and x+1 with credits (1,.5) (.5,1) (.5,.25) (0,1) (1,0), or one answer whose expect is the '
+            'tuple (x, x+1); student x+d with d drawn from (0, 1, 0.3, 1.04): each answer is compared on its own n samples and the '
+            'student earns the largest credit among the answers whose count of failing samples is within failable_evals; '
+            'FormulaGrader and MatrixGrader (vector answers), samples 1-2, failable_evals 0..1, all sampled combinations')
+
+    def cases(self, tier):
+        for cls in ('F', 'M'):
+            for ci in range(len(CREDIT_SETS)):
+                if tier == 'quick' and cls == 'M' and ci not in (1, 5):
+                    continue
+                for (n, k) in ((1, 0), (2, 0), (2, 1)):
+                    yield (cls, ci, n, k)
+
+    def check(self, case):
+        cls, ci, n, k = case
+        kind, c1, c2 = CREDIT_SETS[ci]
+        tol = 0.1
+        X = (2,)
+        D = (0, 1, 0.3, 1.04) if n == 1 else (0, 1, 0.3)
+        if cls == 'F':
+            a1, a2, student = 'x', 'x+1', 'x+d'
+            e1, e2, sf = (lambda e: e['x']), (lambda e: e['x'] + 1), (lambda e: e['x'] + e['d'])
+        else:
+            a1, a2, student = '[x, 2*x]', '[x+1, 2*x]', '[x+d, 2*x]'
+            e1, e2, sf = (lambda e: [e['x'], 2 * e['x']]), (lambda e: [e['x'] + 1, 2 * e['x']]), (lambda e: [e['x'] + e['d'], 2 * e['x']])
+        if kind == 'two':
+            answers = ({'expect': a1, 'grade_decimal': c1}, {'expect': a2, 'grade_decimal': c2})
+            model = [(e1, c1), (e2, c2)]
+        else:
+            answers = {'expect': (a1, a2), 'grade_decimal': c1}
+            model = [(e1, c1), (e2, c1)]
+        grader = (FormulaGrader if cls == 'F' else MatrixGrader)(
+            answers=answers, variables=['x', 'd'], sample_from={'x': DiscreteSet(X), 'd': DiscreteSet(D)},
+            samples=n, failable_evals=k, tolerance=tol)
+        execs, grades, v = explore_counting(grader, student, {'x': X, 'd': D}, n, k, tol, model, sf,
+                                            sig='answer-credit:%s' % kind,
+                                            label='%s answers=%r tolerance %r' % (type(grader).__name__, answers, tol))
+        return counted(execs, grades, v)
+
+
+
+# ---- rewrites of array / complex / numerical answers
+MAT = '[[x, 2*x], [0, -x]]'
+REWRITE_SETS = {
+    # key: (grader kind, answer, equivalent formulas, formulas that differ by >= 19% at every sample)
+    'matrix': ('M', MAT,
+               ['x*[[1, 2], [0, -1]]', '[[1, 2], [0, -1]]*x', MAT + '*I', 'I*' + MAT, MAT + '+0*I', 'trans(trans(' + MAT + '))',
+                '[[x, x+x], [0, 0-x]]', '-[[-x, -2*x], [0, x]]', MAT + '^1', ' [ [ x , 2*x ] , [ 0 , -x ] ] ', '(' + MAT + ')',
+                MAT + '/1', '[[x, 2*x], [0, -x]]+[[1, 1], [1, 1]]-[[1, 1], [1, 1]]'],
+               ['trans(' + MAT + ')', '[[x, 2*x], [0, x]]', '2*' + MAT, '-' + MAT, '[[x, 2*x], [x, -x]]', MAT + '+I*x', '0*' + MAT]),
+    'vector': ('M', '[x, 2*x]',
+               ['x*[1, 2]', '[x, 2*x]+[0, 0]', '[2*x, 4*x]/2', '[x, x+x]', '-[-x, -2*x]', '[1, 2]*x*1'],
+               ['[2*x, x]', '[x, -2*x]', '[x, 3*x]', '[0, 0]', '[x, 2*x]*1.5']),
+    'complex': ('F', 'z*(y+i)',
+                ['z*y+z*i', '(y+i)*z', 'i*z+y*z', 'z*(y+i)+0*i', '-(-z)*(y+i)', 'z*(i+y)*1'],
+                ['z*(y-i)', 'conj(z)*(y+i)', 'z*y', 'i*z*(y+i)', 'abs(z)*(y+i)']),
+    'number': ('N', '10', ['5+5', '1e1', '20/2', '10.0', ' 10 ', '2*5', '10+0*i', '(10)', '100^0.5*1', '10.000'],
+               ['5', '-10', '10*i', '12.5', '7.5', '0', '100']),
+}
+RW_X = (2, -4, 10)
+RW_Z = (1 + 2j, -3j)
+RW_Y = (3, -5)
+
+
+class ArrayRewrites(Family):
+    name = 'array_rewrites'
+    kind = 'CHOICE'
+    timeout = 120.0
+    rule = ('equivalence-preserving rewrites (exact in floats) of a 2x2 matrix answer, a vector answer (MatrixGrader, identity_dim=2), '
+            'a complex-valued formula (z drawn from %r) and a NumericalGrader answer must earn full credit, formulas that differ by '
+            '>= 19%% at every sample none: tolerances {0, 0%%, 0.01%%, 10%%} x samples 1-2 x failable_evals < samples, all sampled '
+            'combinations' % (RW_Z,))
+
+    def cases(self, tier):
+        for key in REWRITE_SETS:
+            gk, _, same, diff = REWRITE_SETS[key]
+            for tol in ((0, '10%') if tier == 'quick' else (0, '0%', '0.01%', '10%')):
+                for (n, k) in (((1, 0),) if gk == 'N' else (((2, 0), (2, 1)) if tier == 'quick' else ((1, 0), (2, 0), (2, 1), (3, 1)))):
+                    if tier == 'quick' and gk != 'N' and (tol, k) not in ((0, 0), ('10%', 1)):
+                        continue
+                    for i in range(len(same) + len(diff)):
+                        yield (key, tol, n, k, i)
+
+    def check(self, case):
+        key, tol, n, k, i = case
+        gk, answer, same, diff = REWRITE_SETS[key]
+        equivalent = i < len(same)
+        student = same[i] if equivalent else diff[i - len(same)]
+        if gk == 'M':
+            grader = MatrixGrader(answers=answer, variables=['x'], sample_from={'x': DiscreteSet(RW_X)}, max_array_dim=2,
+                                  identity_dim=2, samples=n, failable_evals=k, tolerance=tol)
+        elif gk == 'F':
+            grader = FormulaGrader(answers=answer, variables=['z', 'y'], sample_from={'z': DiscreteSet(RW_Z), 'y': DiscreteSet(RW_Y)},
+                                   samples=n, failable_evals=k, tolerance=tol)
+        else:
+            grader = NumericalGrader(answers=answer, tolerance=tol)
+
+        def body(ch):
+            try:
+                return ('ok', grader(None, student))
+            except Exception as e:
+                return ('err', type(e).__name__, str(e))
+        execs = 0
+        for ch, out in chooser.explore(body, bound=None):
+            execs += 1
+            if out[0] != 'ok':
+                return Result('raised', True, viol('array-rewrites:raised', '%s answer %r student %r raised %r'
+                                                   % (type(grader).__name__, answer, student, out[1:])), execs)
+            g = out[1]['grade_decimal']
+            if (g == 1) != equivalent or out[1]['ok'] != equivalent:
+                return Result('wrong', True,
+                              viol('array-rewrites:%s:%s' % (key, 'equivalent-formula-not-credited' if equivalent else 'different-formula-credited'),
+                                   '%s answer %r tolerance %r samples %d failable_evals %d: student %r %s but got %r (choices %r)'
+                                   % (type(grader).__name__, answer, tol, n, k, student,
+                                      'is identical to the answer' if equivalent else 'differs from the answer at every sample',
+                                      out[1], ch.choices), equivalent, out[1]), execs)
+        return Result('credited' if equivalent else 'refused', True, None, execs)
+
+
 def families(tier):
-    return [SampleCounting(), Rewrites(), Numerical(), Infinity(), ZeroExpected()]
+    return [SampleCounting(), Rewrites(), Numerical(), Infinity(), ZeroExpected(),
+            ArrayNorms(), Defaults(), SameSample(), LongRuns(), InfinityCounting(), AnswerCredit(), ArrayRewrites()]
